@@ -97,6 +97,8 @@ def cases(draw):
             "shard_enc": draw(st.sampled_from(["raw", "gzip"])),
             "block": [draw(st.sampled_from([1, 2, 8])) for _ in range(3)],
             "dblock": [draw(st.sampled_from([1, 2, 4, 8])) for _ in range(3)],
+            "dst_spelling": draw(st.sampled_from(
+                ["plain", "plain", "dotdot", "symlink", "symlink_dotdot"])),
             "seed": draw(st.integers(0, 2 ** 31))}
 
 
@@ -193,7 +195,27 @@ def check_case(ctx, case):
             src_url = srv.url + "src"
         ddir = os.path.join(root, "dst")
         dk = case["dst_kind"]
-        argv = ["convert-chunks", src_url, ddir]
+        # how the destination is spelled on the command line (the reads of
+        # the oracle use the real directory the operating system designates)
+        dspell = case.get("dst_spelling", "plain")
+        ddir_arg = ddir
+        if dspell == "dotdot":
+            os.makedirs(os.path.join(root, "sub"))
+            ddir_arg = os.path.join(root, "sub", "..", "dst")
+        elif dspell == "symlink_dotdot":
+            # <link>/../dst where the link points two levels down: the
+            # system resolves ".." AFTER following the link
+            deep = os.path.join(root, "deep", "er")
+            os.makedirs(deep)
+            os.symlink(deep, os.path.join(root, "link"))
+            ddir = os.path.join(root, "deep", "dst")
+            ddir_arg = os.path.join(root, "link", "..", "dst")
+        elif dspell == "symlink":
+            os.makedirs(os.path.join(root, "real"))
+            os.symlink(os.path.join(root, "real"), os.path.join(root, "ln"))
+            ddir = os.path.join(root, "real", "dst")
+            ddir_arg = os.path.join(root, "ln", "dst")
+        argv = ["convert-chunks", src_url, ddir_arg]
         if dk == "copy_info":
             argv.append("--copy-info")
             dinfo = sinfo
